@@ -29,6 +29,10 @@ KINDS = {
     "in_dir_none": "w/dir_none/inner", "missing_in_dir_none": "w/dir_none/nofile",
     "missing_below_dir_none": "w/dir_none/sub/nofile",
     "dir_slash": "w/dir/", "file_slash": "w/file/", "via_dotdot": "w/dir/../file", "missing_slash": "w/missing/",
+    # a NUL character in the spelling: no file system names such a path (os.stat / os.access raise ValueError)
+    # a parent that is writeable but not searchable (0o222) and one that is searchable but not writeable (0o111)
+    "missing_in_dir_wo": "w/dir_wo/nofile", "missing_in_dir_xo": "w/dir_xo/nofile",
+    "nul": "w/fi\0le", "nul_dir": "w/dir\0/inside",
 }
 SPECIAL = {  # spelled as is, whatever "spell" says
     "devnull": "/dev/null", "root": "/", "home": "~", "home_slash": "~/", "home_file": "~/hfile",
@@ -41,7 +45,7 @@ def build_fixture():
     base = tempfile.mkdtemp(prefix="jv_c19m_")
     os.chmod(base, 0o755)
     j = lambda p: os.path.join(base, p)
-    for d in ("home", "w", "ro", "w/dir", "w/dir_rwx", "w/dir_none", "w/dir_wx", "w/dir_r"):
+    for d in ("home", "w", "ro", "w/dir", "w/dir_rwx", "w/dir_none", "w/dir_wx", "w/dir_r", "w/dir_wo", "w/dir_xo"):
         os.mkdir(j(d))
 
     def mkfile(p, mode):
@@ -75,6 +79,8 @@ def build_fixture():
     os.chmod(j("w/dir_none"), 0o000)
     os.chmod(j("w/dir_wx"), 0o333)
     os.chmod(j("w/dir_r"), 0o444)
+    os.chmod(j("w/dir_wo"), 0o222)
+    os.chmod(j("w/dir_xo"), 0o111)
     os.chmod(j("ro"), 0o555)
     return base
 
@@ -118,6 +124,9 @@ def spelled(base, case):
 
 def probe(abs_path):
     """What the operating system says about abs_path — written independently of Path.__init__."""
+    if "\0" in abs_path:  # not a path: the questions below cannot even be asked (ValueError: embedded null byte)
+        return {"exists": False, "kind": "reg", "r": False, "w": False, "x": False,
+                "par_dir": False, "anc_dir": False, "dir_w": False}
     try:
         st = os.stat(abs_path)
         ex = True
@@ -165,12 +174,27 @@ def run_cases(base, cases):
         expanded = os.path.expanduser(given)
         abs_path = expanded if os.path.isabs(expanded) else os.path.join(cwd, expanded)
         facts = probe(abs_path)
+        mode = case["mode"]
+        if "mode_obj" in case:  # a mode that is not a str
+            mode = {"none": None, "int": 5, "list": ["f", "r"], "tuple": ("d",), "bytes": b"fr", "set": {"f"},
+                    "dict": {"f": 1}}[case["mode_obj"]]
         try:
-            if case.get("via") == "type":  # through the registered path type (typing.py: path_type, Path_fr, ...)
-                p = path_type(case["mode"])(given)
+            via = case.get("via")
+            if via == "type":  # through the registered path type (typing.py: path_type, Path_fr, ...)
+                p = path_type(mode)(given)
+            elif via in ("repath", "retype"):
+                # a Path made from a Path: the inner one (no flags, nothing checked) is made HERE, the outer one — which
+                # carries the mode under test — after the process has moved elsewhere: spelling, cwd and absolute
+                # location are those of the inner path, the mode is checked against that location
+                inner = Path(given, mode="")
+                os.chdir(os.path.join(base, "home"))
+                try:
+                    p = path_type(mode)(inner) if via == "retype" else Path(inner, mode=mode)
+                finally:
+                    os.chdir(cwd)
             else:
-                p = Path(given, mode=case["mode"])
-            obs = {"ok": [canon(p.relative), canon(p.absolute)]}
+                p = Path(given, mode=mode)
+            obs = {"ok": [canon(p.relative), canon(p.absolute), canon(p.cwd) if isinstance(p.cwd, str) else "<%s>" % type(p.cwd).__name__]}
         except PathError:
             obs = {"err": "path"}
         except ValueError:
@@ -203,6 +227,9 @@ def in_child(base, cases, drop):
             except BaseException:  # noqa
                 pass
             if drop:
+                # bin/anchor-cov: the line recorder of this child dumps at exit, then as uid nobody
+                if os.environ.get("VERIF_LINECOV_DIR") and os.path.isdir(os.environ["VERIF_LINECOV_DIR"]):
+                    os.chmod(os.environ["VERIF_LINECOV_DIR"], 0o1777)
                 os.setgroups([])
                 os.setgid(NOBODY)
                 os.setuid(NOBODY)
